@@ -346,7 +346,9 @@ static void setupKinds()
   kinds[KU] = KindInfo{sizeof(TU::ItemBlock), sizeof(TU::Item), offsetof(TU::Item, key), offsetof(TU::Item, value), sizeof(TU::ItemBlock) + 4 * sizeof(TU::Item)};
   kinds[KH] = KindInfo{sizeof(TH::ItemBlock), sizeof(TH::Item), offsetof(TH::Item, key), offsetof(TH::Item, value), sizeof(TH::ItemBlock) + 4 * sizeof(TH::Item)};
   kinds[KS] = KindInfo{sizeof(TS::ItemBlock), sizeof(TS::Item), offsetof(TS::Item, key), NONE, sizeof(TS::ItemBlock) + 4 * sizeof(TS::Item)};
-  kinds[KP] = KindInfo{sizeof(TP::ItemBlock), sizeof(TP::Item) + sizeof(Fixed), NONE, sizeof(TP::Item), sizeof(TP::ItemBlock) + 4 * (sizeof(TP::Item) + sizeof(Fixed))};
+  // PoolList slots: link header followed by the element (rounded up to pointer alignment, as the header itself may do)
+  const size_t pslot = (sizeof(TP::Item) + sizeof(Fixed) + sizeof(void*) - 1) / sizeof(void*) * sizeof(void*);
+  kinds[KP] = KindInfo{sizeof(TP::ItemBlock), pslot, NONE, sizeof(TP::Item), sizeof(TP::ItemBlock) + 4 * pslot};
   kinds[KQ] = KindInfo{sizeof(TQ::ItemBlock), sizeof(TQ::Item), offsetof(TQ::Item, key), offsetof(TQ::Item, value), sizeof(TQ::ItemBlock) + 4 * sizeof(TQ::Item)};
   sents[KA] = SentInfo{NONE, NONE};
   sents[KL] = SentInfo{NONE, offsetof(TL, endItem) + offsetof(TL::Item, value)};
